@@ -499,6 +499,8 @@ class Inliner:
         callee, recv, kind = r
         if not is_artefact(self.rel, callee, nested=(kind == "closure")):
             return None
+        if any(ast.unparse(d) not in ("staticmethod", "classmethod") for d in callee.decorator_list):
+            return None        # a decorated helper is not its body (memoisation, locking, context managers ...): never inlined
         return callee, recv, kind
 
     def _stmt(self, s, closures):
